@@ -815,6 +815,39 @@ def class_binding_in_signature(ctx: Ctx, rule: str) -> int:
     return n
 
 
+def _kind_names(f: Func, e: ast.AST, depth: int = 0) -> Set[str]:
+    """the parameter kinds an expression names (`Parameter.KEYWORD_ONLY`, a tuple of kinds, a local / module name bound to one)"""
+    out: Set[str] = set()
+    if isinstance(e, ast.Attribute) and e.attr.isupper():
+        return {e.attr}
+    if isinstance(e, (ast.Tuple, ast.List, ast.Set)):
+        for x in e.elts:
+            out |= _kind_names(f, x, depth)
+        return out
+    if isinstance(e, ast.Name) and depth < 2:
+        for g in [f] + ([f.parent] if getattr(f, "parent", None) is not None else []):
+            for st in g.own_nodes():
+                if isinstance(st, (ast.Assign, ast.AnnAssign)) and st.value is not None:
+                    tg = st.targets[0] if isinstance(st, ast.Assign) else st.target
+                    if isinstance(tg, ast.Name) and tg.id == e.id:
+                        out |= _kind_names(f, st.value, depth + 1)
+        for st in f.module.assigns.get(e.id, []):
+            v = getattr(st, "value", None)
+            if v is not None:
+                out |= _kind_names(f, v, depth + 1)
+    return out
+
+
+def _is_empty_display(f: Func, e: ast.AST) -> bool:
+    if isinstance(e, (ast.Tuple, ast.List, ast.Set)):
+        return not e.elts
+    if isinstance(e, ast.Name):
+        vals = [st.value for st in f.own_nodes() if isinstance(st, (ast.Assign, ast.AnnAssign)) and st.value is not None
+                and isinstance((st.targets[0] if isinstance(st, ast.Assign) else st.target), ast.Name) and (st.targets[0] if isinstance(st, ast.Assign) else st.target).id == e.id]
+        return bool(vals) and all(isinstance(v, (ast.Tuple, ast.List, ast.Set)) and not v.elts for v in vals)
+    return False
+
+
 def _precedence(ctx: Ctx, f: Func, loop: ast.For) -> Tuple[str, List[str]]:
     """The value bound to an ordinary parameter is taken from the positional arguments if there is one at its index, else from the keyword of its name, else
     from its default - whatever the textual order of the tests.  Decided propositionally on the CFG: with atoms `pos` (index < number of positional arguments) and
@@ -868,6 +901,18 @@ def _precedence(ctx: Ctx, f: Func, loop: ast.For) -> Tuple[str, List[str]]:
                     return "pos" if isinstance(op, (ast.Gt, ast.GtE)) else "!pos"
             if isinstance(op, (ast.In, ast.NotIn)) and is_name(l) and isinstance(r, ast.Name) and r.id == kw_p:
                 return "kw" if isinstance(op, ast.In) else "!kw"
+            # "the parameter cannot be given by position" (keyword-only): `p.kind == KEYWORD_ONLY`, `p.kind in <kinds that hold KEYWORD_ONLY but no positional kind>`
+            if isinstance(l, ast.Attribute) and l.attr == "kind" and isinstance(l.value, ast.Name) and l.value.id in param_vars:
+                ks = _kind_names(f, r)
+                if not ks and isinstance(op, (ast.In, ast.NotIn)) and _is_empty_display(f, r):
+                    return "never" if isinstance(op, ast.In) else "!never"
+                if ks and isinstance(op, (ast.Eq, ast.NotEq, ast.In, ast.NotIn, ast.Is, ast.IsNot)):
+                    positive = isinstance(op, (ast.Eq, ast.In, ast.Is))
+                    if ks <= {"KEYWORD_ONLY", "VAR_KEYWORD", "VAR_POSITIONAL"}:
+                        # a kind that is not given by position at its index (keyword-only, *args, **kwargs): not the ordinary parameter the precedence is about
+                        return "kwonly" if positive else "!kwonly"
+                    if ks & {"POSITIONAL_ONLY", "POSITIONAL_OR_KEYWORD"} and "KEYWORD_ONLY" not in ks and ks >= {"POSITIONAL_ONLY", "POSITIONAL_OR_KEYWORD"}:
+                        return "!kwonly" if positive else "kwonly"
         return None
     # sites
     pos_sites = [y for y in ast.walk(loop) if isinstance(y, ast.Subscript) and isinstance(y.value, ast.Name) and y.value.id == pos_p and not isinstance(y.slice, ast.Slice)
@@ -885,6 +930,8 @@ def _precedence(ctx: Ctx, f: Func, loop: ast.For) -> Tuple[str, List[str]]:
 
     def reach(site: ast.AST, world: Dict[str, bool]) -> bool:
         w = dict(kinds_false)
+        w["kwonly"] = False  # an ordinary parameter: it can be given by position
+        w["never"] = False  # membership in an empty collection
         w.update(world)
         st = prog.enclosing_stmt(f.module, site)
         return cfg.find_path([cfg.entry], cfg.nodes_of(st), avoid=excluding_branches(prog, f, cfg, w, atom)) is not None
